@@ -47,6 +47,11 @@ var preludeBlocks = []preludeBlock{
 (assert (forall ((k Int)) (! (=> (> k 0) (= (pow2 k) (* 2 (pow2 (- k 1))))) :pattern ((pow2 k)))))
 (assert (forall ((k Int)) (! (=> (>= k 0) (>= (pow2 k) 1)) :pattern ((pow2 k)))))
 `},
+	{[]string{"umod"}, `(declare-fun umod (Int Int) Int)
+(assert (forall ((a Int) (n Int)) (! (=> (and (>= a 0) (> n 0)) (and (<= 0 (umod a n)) (< (umod a n) n))) :pattern ((umod a n)))))
+(assert (forall ((a Int) (n Int)) (! (=> (and (<= 0 a) (< a n)) (= (umod a n) a)) :pattern ((umod a n)))))
+(assert (forall ((a Int) (c Int) (n Int)) (! (=> (and (>= c 0) (> n 0) (= a (+ c n))) (= (umod a n) (umod c n))) :pattern ((umod a n) (umod c n)))))
+`},
 	shiftTruncBlock("b", SBool, "false"),
 	shiftTruncBlock("i", SInt, "0"),
 	shiftTruncBlock("r", SReal, "0.0"),
